@@ -209,6 +209,59 @@ where
             o => return fail(format!("batch_open (mixed bounds): {}", o.detail())),
         }
     }
+    // linear-combination proofs of the trait-default path (Hyrax, linear codes): the batch proof over exactly the
+    // (polynomial, point) pairs the combinations need, plus one transmitted evaluation per pair.  Two combinations
+    // over disjoint halves of the polynomials, queried at two different points: k pairs (Sizes.tla: lc_evals).
+    if k >= 2 && matches!(A::NAME, "hyrax" | "ligero_uni" | "ligero_ml" | "brakedown") {
+        use ark_poly_commit::{LCTerm, LinearCombination};
+        let h = (k + 1) / 2;
+        let mut la = LinearCombination::<A::F>::empty(elabel(1));
+        for (i, lp) in lps.iter().enumerate().take(h) {
+            la.push((A::F::from(i as u64 + 1), LCTerm::PolyLabel(lp.label().clone())));
+        }
+        la.push((A::F::from(3u64), LCTerm::One));
+        let mut lb = LinearCombination::<A::F>::empty(elabel(2));
+        for lp in lps.iter().skip(h) {
+            lb.push((A::F::from(1u64), LCTerm::PolyLabel(lp.label().clone())));
+        }
+        let lcs = vec![la, lb];
+        let mut lqs = QuerySet::new();
+        lqs.insert((elabel(1), (qlabel(1), point.clone())));
+        lqs.insert((elabel(2), (qlabel(2), p2.clone())));
+        let mut needed = QuerySet::new();
+        for (i, lp) in lps.iter().enumerate() {
+            if i < h {
+                needed.insert((lp.label().clone(), (qlabel(1), point.clone())));
+            } else {
+                needed.insert((lp.label().clone(), (qlabel(2), p2.clone())));
+            }
+        }
+        let mut spl = LogSponge::<A::F>::fresh();
+        let mut lr = LogRng::new(15);
+        let lcp = match guarded(|| A::PC::open_combinations(&ck, lcs.iter(), lps.iter(), comms.iter(), &lqs, &mut spl, states.iter(), Some(&mut lr as &mut dyn RngCore))) {
+            Out::Ok(x) => x,
+            o => return fail(format!("open_combinations: {}", o.detail())),
+        };
+        let want_evals = v["lc_evals"].as_u64().unwrap_or(k as u64) as usize;
+        let got_evals = lcp.evals.as_ref().map(|e| e.len());
+        if got_evals != Some(want_evals) {
+            return fail(format!("LC proof of two combinations over disjoint halves of {} polynomials at two points transmits {:?} evaluations, the law gives {}", k, got_evals, want_evals));
+        }
+        let lproofs: Vec<Proof<A>> = lcp.proof.into();
+        let lsz = lproofs.serialized_size(Compress::Yes);
+        let mut spn = LogSponge::<A::F>::fresh();
+        let mut nr = LogRng::new(16);
+        match guarded(|| A::PC::batch_open(&ck, lps.iter(), comms.iter(), &needed, &mut spn, states.iter(), Some(&mut nr as &mut dyn RngCore))) {
+            Out::Ok(bp) => {
+                let np: Vec<Proof<A>> = bp.into();
+                let nsz = np.serialized_size(Compress::Yes);
+                if lsz != nsz {
+                    return fail(format!("LC proof carries {} bytes of openings, a batch proof over the {} needed (polynomial, point) pairs has {}", lsz, k, nsz));
+                }
+            }
+            o => return fail(format!("batch_open over the needed pairs: {}", o.detail())),
+        }
+    }
     let _ = &mut rng;
     json!({"ok": true, "why": "", "comm": want_c, "proof": psz})
 }
